@@ -764,6 +764,9 @@ func main() {
 	group("SrcHeaderSets.v", func() {
 		translateHeaderSets(intByName, intCE, &out)
 	})
+	group("SrcHeaderProgs.v", func() {
+		translateHeaderPrograms(intByName, rootByName, intCE, rootCE, &out)
+	})
 	group("SrcOrigin.v", func() {
 		translateEffects(effSpec{file: "helpers.go", fn: "sameOrigin", coq: "src_same_origin", params: "(a b : url)", ret: "bool", pure: true,
 			env: func() *eenv {
